@@ -235,15 +235,17 @@ OutcomeClass(scn, rq, o) ==
   ELSE IF o.status = 200 THEN
      LET p == PathOf(rq.path)
          cand == IF Must(scn, p) # {} THEN Must(scn, p) ELSE May(scn, p)
-         ctok == \E i \in cand : o.mt = MimeOfName(FileName(scn.files[i])) IN
+         \* candidates whose media type is the observed one: bytes and type must fit the *same* file
+         cm == {i \in cand : o.mt = MimeOfName(FileName(scn.files[i]))}
+         ctok == cm # {} IN
      IF cand = {} THEN (IF rq.m = "HEAD" THEN "200-head-on-unserved-path"
                         ELSE IF o.eqout THEN "200-file-outside-directory"
                         ELSE IF o.eqlate THEN "200-content-written-after-mount"
                         ELSE IF o.eq # <<>> \/ o.eqall # <<>> THEN "200-some-file" ELSE "200-other")
      ELSE IF ~ctok THEN "200-wrong-content-type"
      ELSE IF rq.m = "HEAD" THEN (IF o.blen = 0 /\ o.tail = 0 THEN "200-head" ELSE "200-head-with-body")
-     ELSE IF \E i \in cand : i \in RangeOf(o.eq) THEN (IF o.tail = 0 THEN "200-exact" ELSE "200-exact-then-garbage")
-     ELSE IF o.blen = 0 /\ (\E i \in cand : i \in RangeOf(o.eqall)) THEN "200-declared-length-0-then-file-bytes"
+     ELSE IF \E i \in cm : i \in RangeOf(o.eq) THEN (IF o.tail = 0 THEN "200-exact" ELSE "200-exact-then-garbage")
+     ELSE IF o.blen = 0 /\ (\E i \in cm : i \in RangeOf(o.eqall)) THEN "200-declared-length-0-then-file-bytes"
      ELSE IF o.eqlate THEN "200-content-written-after-mount"
      ELSE IF o.eq # <<>> \/ o.eqall # <<>> THEN "200-bytes-of-another-file"
      ELSE "200-wrong-bytes"
